@@ -82,6 +82,31 @@ def correspondence(ctx, model_ok=True):
             failures.append({"what": "output depends on whether the collector runs (collect at every allocation, freed memory reused)", "program": src, "name": name,
                              "always": ca, "never": cn, "modules": {k: v for k, v in mods.items() if k in src},
                              "signature": "schedule-dependent output (memory reused)", "failing_input": True})
+    # one interpreter fed a HISTORY of snippets (the REPL): runs that end in uncaught errors - in a function that had stored a closure over
+    # its locals in a global, in a fiber several fibers deep whose callers are waiting, in a module body - followed by snippets that use what
+    # the failed runs left behind; what a later snippet can still reach must be intact whatever the collector did in between
+    from props import c15
+    hrng = rng.fork("histories")
+    hists = [c15.gen_history(hrng.fork("h%d" % i))[0] for i in range(1500 if ctx.thorough else 400)]
+    hl = [vlib.case_line("h%d" % i, c15.steps_of(a), steps=2000000) for i, a in enumerate(hists)]
+    h_always = vlib.run_real(ctx.runner, [l.replace(" steps=", " gc=always quarantine=1 steps=") for l in hl])
+    h_never = vlib.run_real(ctx.runner, [l.replace(" steps=", " gc=never steps=") for l in hl])
+    for a, xa, xn in zip(hists, h_always, h_never):
+        oa, on = c15.observed(xa), c15.observed(xn)
+        if oa is None or on is None:
+            failures.append({"what": "the interpreter process died while running a history of snippets", "history": a,
+                             "observed": str(xa if oa is None else xn)[:300], "signature": "history crash", "failing_input": True})
+            continue
+        uaf = [u for st in oa for u in (st.get("uaf") or [])]
+        ca, cn = [progs.canon_step(st) for st in oa], [progs.canon_step(st) for st in on]
+        if uaf:
+            failures.append({"what": "a swept object was used while one interpreter ran a history of snippets (collect at every allocation, quarantine)",
+                             "history": a, "events": uaf[:4], "signature": "history: " + uaf_signature(uaf), "failing_input": True})
+        elif ca != cn:
+            k = next((i for i, (x, y) in enumerate(zip(ca, cn)) if x != y), 0)
+            failures.append({"what": "what a later snippet prints depends on whether the collector ran (snippet %d)" % k, "history": a,
+                             "always": ca[k] if k < len(ca) else None, "never": cn[k] if k < len(cn) else None,
+                             "signature": "history: schedule-dependent output", "failing_input": True})
     for _, _, _, tg in gen:
         for t in tg:
             tags[t] = tags.get(t, 0) + 1
@@ -171,7 +196,7 @@ def correspondence(ctx, model_ok=True):
                              "unexpected": unexpected[:20], "signature": "schema-vs-trace", "failing_input": False})
 
     cov = {
-        "evaluations": 2 * len(allp) + len(mlines),
+        "evaluations": 2 * len(allp) + len(mlines) + 2 * len(hists), "snippet_histories": len(hists),
         "distinct_nontrivial": len(nontrivial),
         "rule": "programs = %d per-edge probes + %d generated (profiles %s) + %d repository scripts, each run with collection at every "
                 "allocation (+quarantine, use-after-free monitor) and with no collection; non-trivial = distinct source that compiled and ran; "
@@ -283,6 +308,17 @@ def search(ctx, broken):
 
 
 def replay(ctx, payload):
+    if "history" in payload:
+        from props import c15
+        l = vlib.case_line("replay", c15.steps_of(payload["history"]), steps=2000000)
+        xa = vlib.run_real(ctx.runner, [l.replace(" steps=", " gc=always quarantine=1 steps=")])[0]
+        xn = vlib.run_real(ctx.runner, [l.replace(" steps=", " gc=never steps=")])[0]
+        oa, on = c15.observed(xa), c15.observed(xn)
+        if oa is None or on is None:
+            return False, "the interpreter process died: %s" % str(xa if oa is None else xn)[:300]
+        uaf = [u for st in oa for u in (st.get("uaf") or [])]
+        ca, cn = [progs.canon_step(st) for st in oa], [progs.canon_step(st) for st in on]
+        return (not uaf and ca == cn), "always: %s\nnever: %s\nuaf: %s" % (ca, cn, uaf[:4])
     if "program" not in payload:
         return False, "nothing to replay: " + json.dumps(payload)[:400]
     p = [("replay", payload["program"], payload.get("modules", {}))]
